@@ -290,7 +290,13 @@ func (a *sideEffectActor) InboxForwarding(c context.Context, inboxIRI *url.URL, 
 	//    by this server. This is only a boolean trigger: As soon as we get
 	//    a hit that we own something, then we should do inbox forwarding.
 	maxDepth := a.s2s.MaxInboxForwardingRecursionDepth(c)
-	ownsValue, err := a.hasInboxForwardingValues(c, inboxIRI, activity, maxDepth, 0)
+	// The collections above are owned by this server and are still locked
+	// by this call: a value that is one of them must not be locked again.
+	held := make(map[string]bool, len(colIRIs))
+	for _, iri := range colIRIs {
+		held[iri.String()] = true
+	}
+	ownsValue, err := a.hasInboxForwardingValues(c, inboxIRI, activity, maxDepth, 0, held)
 	if err != nil {
 		return err
 	}
@@ -544,7 +550,10 @@ func (a *sideEffectActor) addToInboxIfNew(c context.Context, inboxIRI *url.URL, 
 //
 // Recursion may be limited by providing a 'maxDepth' greater than zero. A
 // value of zero or a negative number will result in infinite recursion.
-func (a *sideEffectActor) hasInboxForwardingValues(c context.Context, inboxIRI *url.URL, val vocab.Type, maxDepth, currDepth int) (bool, error) {
+//
+// The ids in 'held' are owned by this server and already locked by the caller;
+// they are recognized as owned without locking them again.
+func (a *sideEffectActor) hasInboxForwardingValues(c context.Context, inboxIRI *url.URL, val vocab.Type, maxDepth, currDepth int, held map[string]bool) (bool, error) {
 	// Stop recurring if we are exceeding the maximum depth and the maximum
 	// is a positive number.
 	if maxDepth > 0 && currDepth >= maxDepth {
@@ -555,6 +564,9 @@ func (a *sideEffectActor) hasInboxForwardingValues(c context.Context, inboxIRI *
 	types, iris := getInboxForwardingValues(val)
 	// For IRIs, simply check if we own them.
 	for _, iri := range iris {
+		if iri != nil && held[iri.String()] {
+			return true, nil
+		}
 		err := a.db.Lock(c, iri)
 		if err != nil {
 			return false, err
@@ -575,6 +587,9 @@ func (a *sideEffectActor) hasInboxForwardingValues(c context.Context, inboxIRI *
 		id, err := GetId(val)
 		if err != nil {
 			return false, err
+		}
+		if held[id.String()] {
+			return true, nil
 		}
 		err = a.db.Lock(c, id)
 		if err != nil {
@@ -618,7 +633,7 @@ func (a *sideEffectActor) hasInboxForwardingValues(c context.Context, inboxIRI *
 	}
 	// Recur.
 	for _, nextVal := range types {
-		if has, err := a.hasInboxForwardingValues(c, inboxIRI, nextVal, maxDepth, currDepth+1); err != nil {
+		if has, err := a.hasInboxForwardingValues(c, inboxIRI, nextVal, maxDepth, currDepth+1, held); err != nil {
 			return false, err
 		} else if has {
 			return true, nil
